@@ -1,4 +1,4 @@
-CONSTANTS N = 3 MaxSeg = 2 Marker = FALSE
+CONSTANTS N = 3 MaxSeg = 2 Marker = FALSE Timers = {}
 SPECIFICATION Spec
 CHECK_DEADLOCK FALSE
 INVARIANTS Integrity NoLossOnClose
